@@ -1229,6 +1229,23 @@ func conv(i *interpreter, t_dst, t_src types.Type, x value) value {
 	if r, ok := i.convPointer(t_dst, t_src, x); ok {
 		return r
 	}
+	if ss, ok := x.(symstr); ok {
+		// string atom -> []byte: prefix bytes, 0x01, 'a'+id
+		if sl, ok := ut_dst.(*types.Slice); ok {
+			if b, ok := sl.Elem().Underlying().(*types.Basic); ok && b.Kind() == types.Uint8 {
+				var res []value
+				for k := 0; k < len(ss.prefix); k++ {
+					res = append(res, ss.prefix[k])
+				}
+				res = append(res, uint8(1), i.px.mk(kBV, 8, "(bvadd "+ss.id.t+" "+bvLit('a', 8)+")"))
+				return res
+			}
+		}
+		if b, ok := ut_dst.(*types.Basic); ok && b.Kind() == types.String {
+			return ss
+		}
+		panic(unsupported{"conversion of a symbolic string atom to " + t_dst.String()})
+	}
 
 	// Destination type is not an "untyped" type.
 	if b, ok := ut_dst.(*types.Basic); ok && b.Info()&types.IsUntyped != 0 {
